@@ -2,6 +2,7 @@
 from __future__ import annotations
 
 from .harness import Explorer
+from .front import AnalysisError as _AnalysisError
 from .rules import part, wrappers, pent, sysz, mcsops, cnf, enum, cinf, preocf
 from .rules import parser as parser_rules
 from .rules import diag
@@ -178,6 +179,8 @@ def C07(rep, prog, tier):
     try:
         for site, paths in _operator_inference_paths(rep, ex, table):
             _run(rep, wrappers.solver_per_query, site, paths)
+    except _AnalysisError as e:
+        rep.analysis_errors.append(str(e))
     finally:
         rep.only = None
 
@@ -323,8 +326,9 @@ def C12(rep, prog, tier):
             cls = _class_of(table, key)
             if cls:
                 be = mcsops.Backend(name, cls, lex=lex)
-                site, paths = mcsops.w_entry(rep, ex, be, strict=True, extended=True, prefix="LEX" if lex else "W", keys=True, n_objects=2 if lex else 1)
-                _run(rep, wrappers.noninterference, ex, site, paths)
+                res_ = _run(rep, mcsops.w_entry, ex, be, strict=True, extended=True, prefix="LEX" if lex else "W", keys=True, n_objects=2 if lex else 1)
+                if res_:
+                    _run(rep, wrappers.noninterference, ex, res_[0], res_[1])
                 if name == "z3":
                     _run(rep, mcsops.preprocess_flow, ex, be, "LEX" if lex else "W")
                 if lex:
@@ -393,11 +397,15 @@ def _per_query_isolation(rep, ex, table):
     """An answer depends on the base and on the query asked, not on the queries asked before it on the same manager:
     nothing an operator asserts for one query stays in a constraint object the next query finds (STATE.solver-per-query),
     and the conditionals of a base are told apart by what they are, object by object (OBJ.identity)."""
+    from .front import AnalysisError
     prev = rep.only
     rep.only = {"STATE.solver-per-query"}
     try:
         for site, paths in _operator_inference_paths(rep, ex, table):
             _run(rep, wrappers.solver_per_query, site, paths)
+    except AnalysisError as e:
+        # (an operator entry this group cannot read: recorded, the other groups stand on their own evidence)
+        rep.analysis_errors.append(str(e))
     finally:
         rep.only = prev
     rep.only = {"OBJ.identity"}
@@ -429,6 +437,8 @@ def C13(rep, prog, tier):
     try:
         for site, paths in _operator_inference_paths(rep, ex, table):
             _run(rep, wrappers.solver_per_query, site, paths)
+    except _AnalysisError as e:
+        rep.analysis_errors.append(str(e))
     finally:
         rep.only = None
     keep = {"CACHE.readonly", "QUERYSLOT.def-before-use"}
@@ -447,7 +457,10 @@ def C13(rep, prog, tier):
             cls = _class_of(table, key)
             if cls:
                 be = mcsops.Backend(name, cls, lex=lex)
-                site, paths = mcsops.w_entry(rep, ex, be, strict=True, extended=True, prefix="LEX" if lex else "W", n_objects=2 if lex else 1)
+                res_ = _run(rep, mcsops.w_entry, ex, be, strict=True, extended=True, prefix="LEX" if lex else "W", n_objects=2 if lex else 1)
+                if not res_:
+                    continue
+                site, paths = res_
                 _run(rep, wrappers.cache_readonly, ex, site, paths)
                 be.discover_query_slots(ex)
                 rsite = f"{site.rsplit('.', 1)[0]}._rec_inference"
@@ -489,6 +502,8 @@ def C14(rep, prog, tier):
     try:
         for site, paths in _operator_inference_paths(rep, ex, table):
             _run(rep, wrappers.solver_per_query, site, paths)
+    except _AnalysisError as e:
+        rep.analysis_errors.append(str(e))
     finally:
         rep.only = None
     # an expiry seen by an operator between two pieces of work ends the query flagged; it never makes the operator skip the
